@@ -80,6 +80,10 @@ def expected(values, edges, normalize, pc):
     return [(c + pc) / (tot + 2 * pc) for c in counts]
 
 
+def same_(obs, exp, normalize):
+    return same(obs, exp, normalize)
+
+
 def same(obs, exp, normalize):
     import numpy as np
     if raised(obs):
@@ -231,6 +235,15 @@ def check_case(case, acc):
             for v in variants:
                 if not _one(acc, seqs, seqs2, v["mname"], v["edges"], v["form"], v["normalize"], v["pc"]):
                     return
+            if seqs2 is None:
+                # the very same list object as both collections: all N*N cross pairs, diagonal included
+                same_obj = list(seqs)
+                r = acc.call(pyrepseq.pcDelta, same_obj, same_obj, bins=[0, 1, 2, 3], normalize=False)
+                e = ref_hist(ref_values("default", seqs, seqs), [0, 1, 2, 3])
+                if not same_(r, e, False):
+                    acc.fail("pcDelta/two-collections/same-object", ("star1", seqs, None), e, r)
+                    return
+                acc.ok()
             # bins = 0 -> pc of the same arguments; bins = None -> range(0, 25)
             acc.cls("bins=0")
             r = acc.call(pyrepseq.pcDelta, list(seqs), None if seqs2 is None else list(seqs2), bins=0)
